@@ -16,7 +16,11 @@ def run(rep, tier, seed):
     rep.assumptions += ['exceeding the 8-byte model buffer is kani::assume(false) (stated bound)', 'live heap objects are mem::forgotten at the end of a harness']
     rep.functions.add(NOTES['14'][0]); rep.bounds['stated'] = NOTES['14'][1]
     rep.need_witness(*['C%s:' % '14' + w for w in ['write zero', 'success after a partial write']])
-    kani.check(rep, 'C14', 'codec', lambda h: h.startswith('c14' + '_'), () if q else ('thorough',), wall=900 if q else 2400)
+    kani.check(rep, 'C14', 'codec', lambda h: h.startswith('c14_') and not h.startswith('c14_hw_'), () if q else ('thorough',), wall=900 if q else 2400)
+    # the 1 KiB / 8 KiB marks: same real framed.rs against the `lenonly` configuration of the model buffer (9000 bytes, lengths
+    # exact, contents not maintained): poll_ready back-pressure exactly at the high-water mark, accessors, start_send growth
+    rep.bounds['stated'] += '; high-water mark harnesses: buffered length symbolic 0..8300, item sizes 0..600, <= 2 writes'
+    kani.check(rep, 'C14', 'codec', lambda h: h.startswith('c14_hw_'), ('lenonly',), wall=900 if q else 2400)
 
 
 def replay(path): return kani.replay_file(path)
